@@ -98,7 +98,7 @@ class H:
                  cbmc=(), fp=None, caps=None, objbits=12, leak=False, alloc=False, models=(),
                  timeout=None, note='', inputs='', bounds='', incdirs=(), src_defines=(),
                  unconfirmed_ok=(), functions=(), maxdeepen=None, extra_srcs=(), unwind_default=1,
-                 solver=None, nowitness=False, exclude=None, roots=None, partial_deepen=False):
+                 solver=None, nowitness=False, exclude=None, roots=None, partial_deepen=False, snapshot=False):
         self.name = name
         self.src = src                      # path relative to /verif/harness
         self.sources = list(sources)        # repo-relative C files
@@ -126,6 +126,7 @@ class H:
         self.solver = solver
         self.nowitness = nowitness
         self.partial_deepen = partial_deepen
+        self.snapshot = snapshot
         self.roots = roots                  # root descriptor objects for table reachability
         self.exclude = exclude              # regex: functions never offered as function-pointer targets
 
@@ -699,8 +700,9 @@ class Engine:
                     try:
                         for hh in json.load(open(os.path.join(hd, f))).values():
                             for k, v in hh.get('unwindset', {}).items():
-                                if not k.startswith('harness') and v <= 16:
-                                    self.pool[k] = max(self.pool.get(k, 0), v)
+                                # seeds are capped: over-unwinding data-dependent loops costs GBs of symex memory
+                                if not k.startswith('harness'):
+                                    self.pool[k] = min(4, max(self.pool.get(k, 0), v))
                     except Exception:
                         pass
         p = os.path.join(VERIF, 'hints', self.prop_id + '.json')
@@ -763,10 +765,78 @@ class Engine:
                             limit=False, timeout=900)
         if rc != 0:
             raise EngineError('goto-cc failed for harness %s:\n%s' % (h.name, (so + se)[-3000:]))
+        if h.snapshot:
+            objs = self.snapshot_wrap(h, build, a, wdir)
+            rc, so, se, _ = run(['goto-cc'] + GOTOCC_BASE + build['hflags'] + list(variant_defs) + hsrcs + objs + ['-o', a],
+                                limit=False, timeout=900)
+            if rc != 0:
+                raise EngineError('goto-cc (snapshot pass) failed for harness %s:\n%s' % (h.name, (so + se)[-3000:]))
         r = os.path.join(wdir, 'r.gb')
         res = fprestrict(a, r, h.fp, wdir, h.exclude, h.roots)
         os.unlink(a)
         return r, res
+
+    def snapshot_wrap(self, h, build, gb, wdir):
+        """C19: regenerate, from the goto binary's symbol table, code that snapshots and compares EVERY mutable
+        object of static storage duration defined at file scope in the linked units (wrapper TU = #include of the
+        real unit + accessor, so file-local statics are reachable by name with their real types)."""
+        rc, so, se, _ = run(['goto-instrument', '--show-symbol-table', '--json-ui', gb], limit=False)
+        st = None
+        for x in json.loads(so):
+            if 'symbolTable' in x:
+                st = x['symbolTable']
+        per_unit, local_statics = {}, []
+        unit_paths = {os.path.realpath(p): (p, fl) for (p, fl) in build['units']}
+        for n, sy in st.items():
+            if not sy.get('isStaticLifetime') or sy.get('isType') or sy['type'].get('id') == 'code':
+                continue
+            if n.startswith('__CPROVER') or sy.get('isExtern') or '$' in n:
+                continue
+            f = sy.get('location', {}).get('namedSub', {}).get('file', {}).get('id', '')
+            wd = sy.get('location', {}).get('namedSub', {}).get('working_directory', {}).get('id', '')
+            fp_ = os.path.realpath(f if os.path.isabs(f) else os.path.join(wd, f))
+            if fp_ not in unit_paths or fp_.startswith(VERIF):
+                continue
+            pt = sy.get('prettyType', '')
+            if pt.startswith('const ') or '#constant' in json.dumps(sy['type'].get('namedSub', {}).get('#constant', '')) and sy['type'].get('namedSub', {}).get('#constant', {}).get('id') == '1':
+                continue
+            if '::' in n:
+                local_statics.append(n)
+                continue
+            per_unit.setdefault(fp_, []).append(sy.get('baseName', n))
+        self.snapshot_info = {'objects': sum(len(v) for v in per_unit.values()), 'function_local_statics': sorted(local_statics)}
+        objs = []
+        calls = []
+        idx = 0
+        for (path, fl) in build['units']:
+            rp = os.path.realpath(path)
+            names = sorted(set(per_unit.get(rp, [])))
+            if not names:
+                objs.append(self.stage.obj(path, GOTOCC_BASE + fl))
+                continue
+            idx += 1
+            fn = 'verif_snap_unit_%d' % idx
+            w = os.path.join(wdir, 'wrap_%d_%s' % (idx, os.path.basename(path)))
+            with open(w, 'w') as f:
+                f.write('#include "%s"\n#include <string.h>\n' % path)
+                f.write('void %s(int mode) {\n' % fn)
+                for nm in names:
+                    f.write('  { static unsigned char snap[sizeof(%s)];\n' % nm)
+                    f.write('    if(mode == 0) memcpy(snap, &%s, sizeof(%s));\n' % (nm, nm))
+                    f.write('    else __CPROVER_assert(memcmp(snap, &%s, sizeof(%s)) == 0, "static object %s (%s) is not modified by codec calls"); }\n'
+                            % (nm, nm, nm, os.path.basename(path)))
+                f.write('}\n')
+            calls.append(fn)
+            objs.append(self.stage.obj(w, GOTOCC_BASE + ['-I', os.path.dirname(path)] + fl))
+        allc = os.path.join(wdir, 'snap_all.c')
+        with open(allc, 'w') as f:
+            for c in calls:
+                f.write('void %s(int);\n' % c)
+            f.write('void verif_snapshot_all(void) {\n' + ''.join('  %s(0);\n' % c for c in calls) + '}\n')
+            f.write('void verif_compare_all(void) {\n' + ''.join('  %s(1);\n' % c for c in calls) + '}\n')
+            f.write('int verif_snapshot_count = %d;\n' % self.snapshot_info['objects'])
+        objs.append(self.stage.obj(allc, GOTOCC_BASE))
+        return objs
 
     # -- one variant -----------------------------------------------------
     def run_variant(self, h, variant, variant_defs, build, expect_fail=False):
@@ -932,7 +1002,7 @@ class Engine:
             if any(h.gen for h in self.harnesses):
                 st.build_compiler()
             hook_msgs = self.validate_hooks()
-            jobs = max(1, min(NCPU, len(self.harnesses)))
+            jobs = max(1, min(NCPU, len(self.harnesses), int(os.environ.get('VERIF_PAR', '10'))))
             with cf.ThreadPoolExecutor(max_workers=jobs) as ex:
                 futs = {ex.submit(self.run_harness, h): h for h in self.harnesses}
                 for f in cf.as_completed(futs):
